@@ -305,7 +305,13 @@ class WOFF2Writer(SFNTWriter):
         """Set bit 11 of 'head' table flags to indicate that the font has undergone
         a lossless modifying transform. Re-compile head table data."""
         self._decompileTable("head")
-        self.ttFont["head"].flags |= 1 << 11
+        head = self.ttFont["head"]
+        head.flags |= 1 << 11
+        # Decompiling 'head' may "repair" the timestamps (unix-style or out-of-range
+        # values); changing the container flavour must not change them.
+        rawData = self.tables["head"].data
+        if len(rawData) >= 36:
+            head.created, head.modified = struct.unpack(">QQ", rawData[20:36])
         self._compileTable("head")
 
     def _decompileTable(self, tag):
